@@ -67,6 +67,9 @@ def contexts(as_mid, as_low):
         'renamed': D({'renamed_in_config': 'from-ctx', 'ren': 'still-ignored'}),
         'ctx_uses': F('json', {'own0': 'u0'}, uses=[{'ctx': F('yaml', {'own1': 'u1'})}]),
         'mutable': D({'mut': [1, [2, {'k': [3]}]]}),
+        # the caller's own dict / Context object names further context files
+        'dict_uses': D({'own0': 'u0'}, uses=[{'ctx': F('yaml', {'own1': 'u1'})}]),
+        'object_uses': F('object', {'own0': 'u0'}, uses=[{'ctx': F('json', {'own1': 'u1', 'shared': 'u-shared'})}]),
     }
     if mid or low:
         fn = {}
@@ -97,7 +100,7 @@ def tree_family(tier):
     for as_mid, as_low in itertools.product((None, 'a'), (None, 'b')):
         for media in medias:
             for cname, ctx in contexts(as_mid, as_low).items():
-                if tier == 'quick' and media != 'jjy' and cname not in ('none', 'exact', 'list2', 'uses-as', 'global+exact', 'uses-as-then-plain'):
+                if tier == 'quick' and media != 'jjy' and cname not in ('none', 'exact', 'list2', 'uses-as', 'global+exact', 'uses-as-then-plain', 'dict_uses', 'object_uses'):
                     continue
                 d = base_desc(as_mid, as_low, media)
                 d['context'] = ctx
